@@ -135,6 +135,12 @@ public:
     }
     else
     {
+      if(size > _capacity && &value >= _begin.item && &value < _end.item)
+      { // value is an element of this array, which is about to be relocated
+        T copy(value);
+        resize(size, copy);
+        return;
+      }
       reserve(size);
       T* end = _begin.item + size;
       for (T* i = _begin.item + _size; i != end; ++i)
@@ -179,6 +185,11 @@ public:
   T& append(const T& value)
   {
     usize size = _end.item - _begin.item;
+    if(size + 1 > _capacity && &value >= _begin.item && &value < _end.item)
+    { // value is an element of this array, which is about to be relocated
+      T copy(value);
+      return append(copy);
+    }
     reserve(size + 1);
     T* item = _end.item;
 #ifdef VERIFY
